@@ -435,7 +435,8 @@ def run_unit(unit, want_trace=False):
     if want_trace:
         res['traces'] = traces
         return res
-    json.dump(res, open(resf, 'w'))
+    if all(o['status'] in ('SUCCESS', 'FAILURE') for o in obl):
+        json.dump(res, open(resf, 'w'))
     for f in ('a.%d.gb' % os.getpid(), 'b.%d.gb' % os.getpid()):
         try:
             os.remove(os.path.join(udir, f))
